@@ -216,7 +216,13 @@ def make_case(rng, idx):
             text, shift = rl(text, None, lead, crlf, nonl, cm)
             f = "pkg/s%d%s" % (idx, ctrl.EXT[lang])
             files[f] = text
-            facts[f] = {"kind": "class", "items": {c["name"]: c["line"] + shift for c in fx}}
+            items = {}
+            for c in fx:
+                # same-named types may live in different modules / hosts of one file: each of their header lines is a header of that name
+                # (the method-less three-line namesake in a `mod shadow_N` is under both thresholds: never its line)
+                if c.get("form") != "shadow":
+                    items.setdefault(c["name"], []).append(c["line"] + shift)
+            facts[f] = {"kind": "class", "items": items}
         files[".thailint.yaml"] = "srp:\n  max_methods: 1\n  max_loc: 4\n"
         cmds = [["srp"], ["stateless-class"]]
     elif kind == 3:  # rust calls: the call's line
@@ -345,7 +351,7 @@ def run(ctx):
                     m = (SRP_MSG if fam == "srp" else STATELESS_MSG).search(msg)
                     if m and m.group(1) not in text:
                         ctx.discrepancy("name-not-on-line:%s" % fam, where, rep, files)
-                    if m and fx.get("kind") == "class" and fx["items"].get(m.group(1)) not in (None, line):
+                    if m and fx.get("kind") == "class" and fx["items"].get(m.group(1)) is not None and line not in fx["items"][m.group(1)]:
                         ctx.discrepancy("not-header-line:%s" % fam, where + " (header is line %s)" % fx["items"].get(m.group(1)), rep, files)
                     ctx.count("construct_checked:" + fam)
                 elif fam == "magic-numbers":
